@@ -70,12 +70,13 @@ def _config(draw, cap=160):
     L = 1.0
     direction = draw(st.sampled_from([1.0, -1.0]))
     nsteps = draw(st.integers(3, 6 if slow else 12))
+    against = draw(st.sampled_from([False, False, True]))
     return dict(part="faults", method=method, dtype="float64", prob=prob, y0=draw(PR.state(prob["shape"])), t0=t0, tf=t0 + direction * L,
-                dt=L / nsteps, rtol=1e-6, atol=1e-6, dense=draw(st.booleans()), callbacks=draw(st.booleans()),
-                events=draw(st.sampled_from([[], [], [0.37], [0.37, 0.62]])), user_jac=draw(st.booleans()),
+                dt=L / nsteps, rtol=1e-6, atol=1e-6, dense=draw(st.booleans()) or (against and draw(st.booleans())), callbacks=draw(st.booleans()),
+                events=draw(st.sampled_from([[], [], [0.37], [0.37, 0.62]] if not against else [[], [0.37], [0.37, 0.62], [0.62]])), user_jac=draw(st.booleans()),
                 fault=draw(st.sampled_from(["custom", "custom", "runtime", "zerodiv", "keyboard", "nested"])), cap=cap,
                 # a second fault, `second` user-callable calls into the resumed integrate() (at every third crash point)
-                second=draw(st.sampled_from([0, 0, 1, 2, 5, 17])), against_span=draw(st.sampled_from([False, False, True])))
+                second=draw(st.sampled_from([0, 0, 1, 2, 5, 17])), against_span=against)
 
 
 def parts(tier):
